@@ -25,6 +25,22 @@ def _m(m, name):
     return m.method(SM, name, inherited=False)
 
 
+def _taken_atomically(store, attr):
+    """`x, self.<attr> = self.<attr>, None`  or  `x = self.<attr>` directly followed by `self.<attr> = None`
+    (both statements inside the same lock region - the caller checks the region of the store)"""
+    if isinstance(store, ast.Assign) and isinstance(store.value, ast.Tuple):
+        return f'self.{attr}' in src(store.value) and isinstance(store.value.elts[-1], ast.Constant) and store.value.elts[-1].value is None
+    if isinstance(store, ast.Assign) and isinstance(store.value, ast.Constant) and store.value.value is None:
+        par = store.parent
+        for field in ('body', 'orelse', 'finalbody'):
+            lst = getattr(par, field, None)
+            if isinstance(lst, list) and store in lst:
+                i = lst.index(store)
+                prev = lst[i - 1] if i > 0 else None
+                return isinstance(prev, ast.Assign) and src(prev.value) == f'self.{attr}' and isinstance(par, ast.With)
+    return False
+
+
 @rule('C14.R1', min_instances=3)
 def bounded_cycle(ctx):
     """no while, bounded for loops, no recursion in cycle"""
@@ -107,8 +123,7 @@ def start_stop_post_a_task(ctx):
                   f'{name}() calls {[src(c.func) for c in calls]}: it does more than posting a task', f)
     f = _m(m, 'cycle')
     swaps = [s for t, v, s in attr_stores(f.node) if t.attr == 'next_task']
-    ok = bool(swaps) and all(in_lock(s, '_lock') and isinstance(s, ast.Assign) and isinstance(s.value, ast.Tuple)
-                             and 'self.next_task' in src(s.value) for s in swaps)
+    ok = bool(swaps) and all(in_lock(s, '_lock') and _taken_atomically(s, 'next_task') for s in swaps)
     ctx.check(ok, f'{f.qualname}:task taken by swap inside lock', f.node, 'action, self.next_task = self.next_task, None under the lock',
               'the posted task is not taken by an atomic swap inside the lock: a start() arriving in between is lost', f)
 
@@ -122,8 +137,7 @@ def cleanup_taken_once(ctx):
     ctx.analysed(g)
     cfg = CFG(g.node, m, g.module)
     swaps = [s for t, v, s in attr_stores(g.node) if t.attr == 'cleanup' and dotted(t.value) == 'self']
-    ok = bool(swaps) and all(in_lock(s, '_lock') and isinstance(s.value, ast.Tuple) and isinstance(s.value.elts[-1], ast.Constant)
-                             and s.value.elts[-1].value is None for s in swaps)
+    ok = bool(swaps) and all(in_lock(s, '_lock') and _taken_atomically(s, 'cleanup') for s in swaps)
     ctx.check(ok, f'{g.qualname}:cleanup swapped to None inside lock', g.node, 'cleanup, self.cleanup = self.cleanup, None under the lock',
               'the cleanup function is not atomically taken (swapped to None under the lock): it can run twice', g)
     cc = [i for c in calls_in(g.node) if isinstance(c.func, ast.Name) and c.func.id == 'cleanup' for i in cfg.node_of(c)]
